@@ -4,6 +4,7 @@ import (
 	"fmt"
 	"go/ast"
 	"go/token"
+	"go/types"
 	"strings"
 )
 
@@ -450,6 +451,7 @@ func runR_C02(c *Ctx) {
 	c.Rep.analysed("equal_residuals", n)
 	methodBeforeOperator(c, "equal", "canEqual", "equalMethodInputParam", "R-method", "`==`")
 	runG9(c, "equal.canEqual")
+	g9Methods(c, methodSpec{"equal.equalMethodInputParam", "Equal", 1, 1, types.Bool})
 	c.Rep.floor("R6", 100)
 }
 
